@@ -21,7 +21,7 @@ PROP_FILE = 'Props/C03.v'
 THEOREMS = [
     'C03_done_not_refetched', 'C03_nothing_lost', 'C03_resume_terminates_final',
     'C03_union_complete_partial', 'C03_union_complete_refuted', 'C03_no_extra_partial', 'C03_resume_same_span',
-    'C03_start_urls_never_lost',
+    'C03_start_urls_never_lost', 'C03_union_complete_one_worker',
 ]
 TRUSTED = c01.TRUSTED + [
     'SQLite (WAL, synchronous=NORMAL) commits are atomic and survive a process kill (os._exit); exercised by the kill runs, '
@@ -347,8 +347,10 @@ LEVEL_TEXT = (
     'list of a fresh crawl (C03_resume_same_span, after the F33 repair); start-up commits the input in batches and may be killed '
     'between two of them, yet whenever the crawl proper runs every start URL has its row (C03_start_urls_never_lost). The union clause is proved only for path-independent '
     'admission (C03_union_complete_partial, C03_no_extra_partial: every schedule and kill history); the full clause is refuted for '
-    'several workers by a vm_compute witness (C03_union_complete_refuted = known finding level-first-discovery); for one worker with '
-    'path-dependent admission (depth limits) it is carried by the exhaustive kill enumeration of the correspondence only.')
+    'several workers by a vm_compute witness (C03_union_complete_refuted = known finding level-first-discovery); for ONE worker the full clause is proved with no guard '
+    '(C03_union_complete_one_worker: any interleaving of producer and worker, any kill history, admission depending on the recorded '
+    'level / parent / root - the table of a one-worker crawl is the breadth-first list, Proofs/EngineBfs.v), so the only case left '
+    'outside is the one the refutation shows to be false.')
 LEVEL_NOTE = (
     'Trusted: Coq kernel + vm_compute; the hand-written LTS, tied to the code by replaying (killed run, rerun) traces of the real '
     'application for every commit/request kill point of the listed sites; SQLite atomic durable commits under process kill; the '
